@@ -339,6 +339,12 @@ def params(sh):
         P += [('burst_method-valid|compute_features %r' % val, 'accept', lambda val=val: compute_features(sig, FS, FR, burst_method=val))]
     for val in ('rise', 'Peak', 0):
         P += [('first_extrema|find_extrema %r' % (val,), 'reject', lambda val=val: find_extrema(sig, FS, FR, first_extrema=val))]
+    # ... also when the boundary leaves no extremum at all (nothing to align): an unknown value is still rejected
+    for val in ('rise', 'Peak', 0, 'both'):
+        for b in (NS // 2, NS - 1, 10 * NS):
+            P += [('first_extrema|find_extrema %r boundary=%d' % (val, b), 'reject',
+                   lambda val=val, b=b: find_extrema(sig, FS, FR, first_extrema=val, boundary=b))]
+    P += [('first_extrema-valid|find_extrema None boundary=%d' % (10 * NS), 'accept', lambda: find_extrema(sig, FS, FR, first_extrema=None, boundary=10 * NS))]
     for val in ('peak', 'trough', None):
         P += [('first_extrema-valid|find_extrema %r' % (val,), 'accept', lambda val=val: find_extrema(sig, FS, FR, first_extrema=val))]
     P += [('first_extrema|compute_shape_features given', 'reject',
